@@ -854,6 +854,53 @@ def color_close(a, b, tol_rgb=8, tol_a=0.04):
     return all(abs(a[i] - b[i]) <= tol_rgb for i in range(3))
 
 
+def gradient_t_at(glyph, p):
+    """largest |t| of any gradient covering p (0 when only solids)"""
+    best = 0.0
+    for sh in all_shapes(glyph):
+        f = sh.fill
+        if isinstance(f, Solid) or not inside(sh.pts, p):
+            continue
+        m = ID
+        if f.units == "objectBoundingBox":
+            bx, by, bw, bh = _bbox(sh.pts)
+            m = (bw, 0, 0, bh, bx, by)
+        if f.gt:
+            m = mul(m, f.gt)
+        mi = inv(m)
+        if mi is None:
+            continue
+        q = ap(mi, p)
+        t = linear_t2(f.p1, f.p2, q) if isinstance(f, Linear) else radial_t(f.f, 0.0, f.c, f.r, q)
+        if t is not None:
+            best = max(best, abs(t))
+    return best
+
+
+def within_envelope(glyph, p, got, delta, tol_rgb=8, tol_a=0.04):
+    """is `got` between the colours the specification gives at points displaced by up to
+    `delta` (viewBox units)?  Absorbs integer rounding of gradient geometry near steep or
+    discontinuous (repeat) colour lines."""
+    cols = []
+    for k in (1.0, 0.5):
+        for dx, dy in ((1, 0), (-1, 0), (0, 1), (0, -1), (0.7, 0.7), (-0.7, 0.7), (0.7, -0.7), (-0.7, -0.7)):
+            c = spec_color(glyph, (p[0] + k * delta * dx, p[1] + k * delta * dy))
+            if c is None:
+                return True
+            cols.append(c)
+    c0 = spec_color(glyph, p)
+    if c0 is not None:
+        cols.append(c0)
+    for i in range(4):
+        lo, hi = min(c[i] for c in cols), max(c[i] for c in cols)
+        t = tol_a if i == 3 else tol_rgb
+        if not (lo - t <= got[i] <= hi + t):
+            if i < 3 and max(got[3], max(c[3] for c in cols)) < 0.02:
+                continue
+            return False
+    return True
+
+
 def has_hard_stop(glyph):
     for s in all_shapes(glyph):
         f = s.fill
